@@ -2,6 +2,7 @@
 from .. import common as C, structs as S, valgen as V
 
 LEAN_MODULES = ["ZvtVerif.Properties.C01"]
+TRANSLATED = {"structs"}      # translated tables this property consumes (a translator problem elsewhere does not break its tie)
 ASSUMPTIONS = ["canonical value domain of DESIGN.md §5.1", "Rust values are observed through their Debug output"]
 
 
